@@ -40,8 +40,12 @@ def scenario(tier):
         if gens == 3:
             r = b.run("create", root="R", h=sym.choose("fmt3", FS[:2]), sf=[sorted(files)[0]] if sym.flag("third_is_sf") else ())
             b.require(r.exit == 0 and r.exc is None, "setup-create", str(r))
-        r = b.run("verify", root="R", dh=True)
-        b.require(r.exit == 0 and r.exc is None, "unchanged-exit-0", "%s layout=%s" % (r, layout))
+        # how the root is spelled on the command line (shell completion appends a slash; `.` from inside the folder)
+        from .c13 import root_argument
+        spelling = sym.choose("root_spelling", ["plain", "trailing-slash", "dot"])
+        rootarg = root_argument(spelling)
+        r = b.run("verify", dh=True, **rootarg)
+        b.require(r.exit == 0 and r.exc is None, "unchanged-exit-0", "%s layout=%s root spelled %s" % (r, layout, spelling))
         kind = sym.choose("mutation", ["alter", "rename", "add", "remove"])
         fl = sorted(files)
         changed = True
@@ -70,10 +74,10 @@ def scenario(tier):
             b.delete(f)
             what = "remove %s" % f
         b.note(what)
-        r = b.run("verify", root="R", dh=True)
+        r = b.run("verify", dh=True, **rootarg)
         if changed:
             b.require(r.exit == 12 and r.exc == "VerificationDirectoriesFailedException", "change-detected",
-                      "%s (layout %s, %d generation(s), -n generation %s): exit %s exc %s" % (what, layout, gens, nflag, r.exit, r.exc))
+                      "%s (layout %s, %d generation(s), -n generation %s, root spelled %s): exit %s exc %s" % (what, layout, gens, nflag, spelling, r.exit, r.exc))
         else:
             b.require(r.exit == 0 and r.exc is None, "unchanged-exit-0", "%s with identical content: %s" % (what, r))
     return fn
@@ -85,6 +89,6 @@ def harnesses(tier):
                          "format), one mutation at any node incl. root level, then verify -dh",
                     bounds={"layouts": "flat R/{a,b}; U1; nested R/{s,A/{a1,AA/{aa1}},AB/{ab1}} with child history at A/AA or A (md5|xxh64)",
                             "generations": "1-2 (quick) / 1-3 (thorough), at least one with directory hashes", "formats": FS,
-                            "mutations": "alter (same / fresh / another file's content) | rename in place | add file/empty dir in any directory | remove any file / empty dir"},
+                            "root spelling": "R | R/ | . (from inside)", "mutations": "alter (same / fresh / another file's content) | rename in place | add file/empty dir in any directory | remove any file / empty dir"},
                     outside=["histories in which no generation has directory hashes", "explicit -h / -ro / -co options",
                              "tree changes between generations (statement covers trees identical to every generation, or changed after all)"])]
